@@ -2,6 +2,7 @@ INIT Init
 NEXT Next
 CONSTANTS
   Part = "cong"
+  Flaws = {}
   Thorough = FALSE
 INVARIANT LawWellFormed
 INVARIANT LawGuard
